@@ -446,6 +446,21 @@ impl Visitor<Diagnostic> for LibraryRenderer {
         self.visit_struct_initial_value_assignment_kind(&node.init)
     }
 
+    fn visit_struct_initial_value_assignment_kind(
+        &mut self,
+        node: &StructInitialValueAssignmentKind,
+    ) -> Result<Self::Value, Diagnostic> {
+        match node {
+            StructInitialValueAssignmentKind::Structure(elements) => {
+                self.write_ws("(");
+                visit_comma_separated!(self, elements.iter(), StructureElementInit);
+                self.write_ws(")");
+                Ok(())
+            }
+            _ => node.recurse_visit(self),
+        }
+    }
+
     fn visit_simple_declaration(
         &mut self,
         node: &SimpleDeclaration,
